@@ -355,6 +355,13 @@ pub const SHAPES: &[(&str, &[&str])] = &[
     ("rband_r", &["band", "r"]),
     ("rbor", &["bor"]),
     ("rbnot_r", &["bnot", "r"]),
+    // joins over resources through their fetch wrappers (Fetch / Read / FetchMut / Write)
+    ("res_fb_r", &["b", "r"]),
+    ("res_rb_r", &["b", "r"]),
+    ("res_reb_r", &["b", "r"]),
+    ("res_fmcs_w", &["csm", "w"]),
+    ("res_wcs_w", &["csm", "w"]),
+    ("res_wecs_w", &["csm", "w"]),
     // unconstrained joins: every member is optional or negated, the join walks the whole index space
     ("u_n", &["n"]),
     ("u_m", &["m"]),
@@ -461,6 +468,9 @@ pub fn run_script(script: &Value) -> Value {
     let ents_js: Vec<Value> = live.iter().map(|&e| ej(e)).collect();
     let r = catch(|| exec_shape(&mut s, &shape, &run));
     let (ucount, uwatch) = (run.count.get(), run.watch.clone());
+    if let Some(c) = s.world.remove::<ChangeSet<Amt>>() {
+        s.csets[0] = Some(c);
+    }
     let (items, gets) = match r {
         Ok(x) => x,
         Err(msg) => {
@@ -552,6 +562,14 @@ fn contents_pos(s: &Setup, shape: &str, k: usize, ids: &[u32]) -> Value {
 }
 
 fn exec_shape(s: &mut Setup, shape: &str, run: &Run) -> (Vec<Value>, Vec<Value>) {
+    if shape.starts_with("res_") {
+        // the bit set / change set becomes a resource of the world
+        #[allow(deprecated)]
+        s.world.add_resource(s.bitsets[0].clone());
+        if let Some(c) = s.csets[0].take() {
+            s.world.insert(c);
+        }
+    }
     let world = &s.world;
     let ents = world.entities();
     match shape {
@@ -810,6 +828,36 @@ fn exec_shape(s: &mut Setup, shape: &str, run: &Run) -> (Vec<Value>, Vec<Value>)
                     .collect(),
             };
             (v, vec![])
+        }
+        "res_fb_r" => {
+            let f = world.fetch::<BitSet>();
+            let b = world.read_storage::<D0>();
+            drive!(run, world, par = yes, (&f, &b), |(i, y)| [json!([i]), y.js()])
+        }
+        "res_rb_r" => {
+            let f: Read<BitSet> = world.system_data();
+            let b = world.read_storage::<D0>();
+            drive!(run, world, par = yes, (&f, &b), |(i, y)| [json!([i]), y.js()])
+        }
+        "res_reb_r" => {
+            let f: ReadExpect<BitSet> = world.system_data();
+            let b = world.read_storage::<D0>();
+            drive!(run, world, par = yes, (&f, &b), |(i, y)| [json!([i]), y.js()])
+        }
+        "res_fmcs_w" => {
+            let mut c = world.fetch_mut::<ChangeSet<Amt>>();
+            let mut b = world.write_storage::<D0>();
+            drive!(run, world, par = no, (&mut c, &mut b), |(x, y)| [{ let bx = x.js(); x.val += 1; bx }, w(y)])
+        }
+        "res_wcs_w" => {
+            let mut c: Write<ChangeSet<Amt>> = world.system_data();
+            let mut b = world.write_storage::<D0>();
+            drive!(run, world, par = no, (&mut c, &mut b), |(x, y)| [{ let bx = x.js(); x.val += 1; bx }, w(y)])
+        }
+        "res_wecs_w" => {
+            let mut c: WriteExpect<ChangeSet<Amt>> = world.system_data();
+            let mut b = world.write_storage::<D0>();
+            drive!(run, world, par = no, (&mut c, &mut b), |(x, y)| [{ let bx = x.js(); x.val += 1; bx }, w(y)])
         }
         "cs_r" => {
             let c = s.csets[0].as_ref().unwrap();
